@@ -1,0 +1,47 @@
+// +build verif
+
+// Read-only views of the trie sync scheduler for the external verification
+// harness (/verif, property C19).  Compiled only with -tags verif; nothing here
+// changes behaviour.
+
+package trie
+
+import (
+	"bytes"
+	"sort"
+
+	"github.com/youchainhq/go-youchain/common"
+)
+
+// VerifSyncReq is a copy of one entry of Sync.requests.
+type VerifSyncReq struct {
+	Hash        common.Hash
+	HasData     bool          // request.data != nil (delivered, waiting for dependencies)
+	Raw         bool          // raw entry (code / blob) rather than a trie node
+	Deps        int           // outstanding dependency count
+	Depth       int           // depth recorded at first scheduling (= fetch queue priority)
+	Parents     []common.Hash // hashes of the parent requests, in stored order (duplicates kept)
+	HasCallback bool
+}
+
+// VerifRequests returns the pending requests sorted by hash.
+func (s *Sync) VerifRequests() []VerifSyncReq {
+	out := make([]VerifSyncReq, 0, len(s.requests))
+	for h, r := range s.requests {
+		v := VerifSyncReq{Hash: h, HasData: r.data != nil, Raw: r.raw, Deps: r.deps, Depth: r.depth, HasCallback: r.callback != nil}
+		for _, p := range r.parents {
+			v.Parents = append(v.Parents, p.hash)
+		}
+		out = append(out, v)
+	}
+	sort.Slice(out, func(i, j int) bool { return bytes.Compare(out[i].Hash[:], out[j].Hash[:]) < 0 })
+	return out
+}
+
+// VerifMembatch returns the hashes of the not yet flushed nodes in flush order.
+func (s *Sync) VerifMembatch() []common.Hash {
+	return append([]common.Hash{}, s.membatch.order...)
+}
+
+// VerifQueueSize returns the number of hashes Missing can still hand out.
+func (s *Sync) VerifQueueSize() int { return s.queue.Size() }
